@@ -287,6 +287,7 @@ type Worker struct {
 	fnSeen      map[*ssa.Function]bool
 	lastModel   Model
 	lastRestart int
+	pathsRun    int
 	h           *HarnessRun
 }
 
@@ -382,6 +383,12 @@ func (w *Worker) initHeap() error {
 
 func (w *Worker) runPath(prefix []Dec) {
 	h := w.h
+	if h.Arith && w.pathsRun > 0 {
+		// arithmetic mode keeps per-term interval/sign facts in the term table; fresh variables are named per path,
+		// so every path gets its own table (and solver state) to keep those facts from leaking between paths
+		w.resetCtx()
+	}
+	w.pathsRun++
 	hc := newHeapCloner()
 	globals := make(map[*ssa.Global]*Object, len(w.baseGlobals))
 	for g, o := range w.baseGlobals {
